@@ -17,7 +17,7 @@ from harness import tlc
 from harness.common import OUT
 
 MAGIC = b"Ma6ik"
-CALL_TIMEOUT = 4
+CALL_TIMEOUT = 8
 
 
 def fd_count():
